@@ -8,6 +8,11 @@ verus! {
 //@@ include prelude/std_specs.rs
 //@@ include prelude/sched.rs
 
+pub open spec fn emit_off(h: Heap) -> Heap {
+    Heap { tasks: h.tasks.insert(h.cur, TaskAbs { flags: h.tasks[h.cur].flags.insert(consts::TASK_EMIT_DISABLED@, true), ..h.tasks[h.cur] }), ..h }
+}
+// stable under fwd: a task that was seen terminal stays terminal unless a catch revived it
+pub open spec fn closed_or_revived(t: TaskAbs) -> bool { st_terminal(t.state) || t.revived > 0 }
 pub open spec fn flag_is(t: TaskAbs, k: Seq<char>, default: bool) -> bool { if t.flags.dom().contains(k) { t.flags[k] } else { default } }
 impl Task {
 //@@ extract file=acts/src/scheduler/process/task.rs in="impl Task" item="fn set_emit_disabled" name=Task::set_emit_disabled props=C08
@@ -567,8 +572,10 @@ pub trait ActTask: Sized {
     spec fn run_pre(&self, h: Heap) -> bool;
     // which task is current after `init`: unchanged for the content impls, the task itself for the dispatcher
     spec fn init_cur(&self, a: Heap, b: Heap) -> bool;
+    // the content impls are initialised for a task that was just set Ready (dispatcher, task.rs init)
+    spec fn init_pre(&self, h: Heap) -> bool;
     fn init(&self, ctx: &Context, Tracked(h): Tracked<&mut Heap>) -> (ret: Result<()>)
-        requires old(h).wf(), self.fits(*old(h))
+        requires old(h).wf(), self.fits(*old(h)), self.init_pre(*old(h))
         ensures final(h).wf(), fwd(*old(h), *final(h)), ret is Ok ==> self.init_cur(*old(h), *final(h));
     fn run(&self, ctx: &Context, Tracked(h): Tracked<&mut Heap>) -> (ret: Result<()>)
         requires old(h).wf(), self.fits(*old(h)), self.run_pre(*old(h))
@@ -586,35 +593,83 @@ pub trait ActTask: Sized {
 
 impl ActTask for Workflow {
     open spec fn fits(&self, h: Heap) -> bool { h.tasks[h.cur].node.content == NodeContent::Workflow(*self) }
+    open spec fn init_pre(&self, h: Heap) -> bool { h.st(h.cur) is Ready }
     open spec fn run_pre(&self, h: Heap) -> bool { h.st(h.cur) is Running }
     open spec fn init_cur(&self, a: Heap, b: Heap) -> bool { b.cur == a.cur }
     // R21: the trait's default `error` (scheduler/mod.rs), instantiated here because Workflow does not override it
 //@@ extract file=acts/src/scheduler/mod.rs in="trait ActTask" item="fn error" name=Workflow::error(default) props=C02,C06
 //@@ opt traitpost attr="#[verifier::exec_allows_no_decreases_clause]"
 //@@ end
-    #[verifier::external_body]
-    fn init(&self, ctx: &Context, Tracked(h): Tracked<&mut Heap>) -> (ret: Result<()>) { unimplemented!() }
+//@@ extract file=acts/src/scheduler/process/task/workflow.rs in="impl ActTask for Workflow" item="fn init" name=Workflow::init props=C04,C02
+//@@ opt traitpost
+//@@ rw R8 `ctx . proc . with_env_mut ( | data | $B:block ) ;` => `ctx.proc.set_env_from(&self.env);`
+//@@ end
 //@@ extract file=acts/src/scheduler/process/task/workflow.rs in="impl ActTask for Workflow" item="fn run" name=Workflow::run props=C02,C04
 //@@ opt traitpost
 //@@ end
 //@@ extract file=acts/src/scheduler/process/task/workflow.rs in="impl ActTask for Workflow" item="fn review" name=Workflow::review props=C02,C03
 //@@ opt traitpost
 //@@ end
-    #[verifier::external_body]
-    fn next(&self, ctx: &Context, Tracked(h): Tracked<&mut Heap>) -> (ret: Result<bool>) { unimplemented!() }
+//@@ extract file=acts/src/scheduler/process/task/workflow.rs in="impl ActTask for Workflow" item="fn next" name=Workflow::next props=C03,C04,C02
+//@@ opt traitpost rewrites=R1,R2,R3,R5,R13,R22
+//@@ spec
+        ensures
+            //# H2-workflow-done-only-when-all-children-terminal
+            ret is Ok && *final(h) == *old(h) && (ret->Ok_0 <==> forall|c: Tid| #[trigger] children_of(*old(h), old(h).cur).contains(c) ==> st_terminal(old(h).st(c))),
+//@@ proof after=children#1
+        proof { lemma_seq_set(tasks@, children_of(*old(h), old(h).cur)); }
+//@@ loop 1
+        invariant
+            //# all-terminal-so-far
+            *h == *old(h) && tasks_ok(*h, __v1@) && (__all <==> forall|j: int| 0 <= j < __i1 ==> st_terminal(h.st((#[trigger] __v1@[j]).id@))),
+//@@ proof at=afterloop1
+        proof {
+            let cs = children_of(*old(h), old(h).cur);
+            assert(__v1@ == tasks@);
+            if __all {
+                assert forall|c: Tid| #[trigger] cs.contains(c) implies st_terminal(old(h).st(c)) by {
+                    let j = choose|j: int| 0 <= j < tasks@.len() && (#[trigger] tasks@[j]).id@ == c;
+                    assert(st_terminal(h.st(__v1@[j].id@)));
+                }
+            } else {
+                let j = choose|j: int| 0 <= j < __i1 && !st_terminal(h.st((#[trigger] __v1@[j]).id@));
+                assert(cs.contains(tasks@[j].id@));
+            }
+        }
+//@@ end
 }
 
 
 impl ActTask for Branch {
     open spec fn fits(&self, h: Heap) -> bool { h.tasks[h.cur].node.content == NodeContent::Branch(*self) }
+    open spec fn init_pre(&self, h: Heap) -> bool { h.st(h.cur) is Ready }
     open spec fn run_pre(&self, h: Heap) -> bool { h.st(h.cur) is Running }
     open spec fn init_cur(&self, a: Heap, b: Heap) -> bool { b.cur == a.cur }
     // R21: the trait's default `error` (scheduler/mod.rs), instantiated here because Branch does not override it
 //@@ extract file=acts/src/scheduler/mod.rs in="trait ActTask" item="fn error" name=Branch::error(default) props=C02,C06
 //@@ opt traitpost attr="#[verifier::exec_allows_no_decreases_clause]"
 //@@ end
-    #[verifier::external_body]
-    fn init(&self, ctx: &Context, Tracked(h): Tracked<&mut Heap>) -> (ret: Result<()>) { unimplemented!() }
+//@@ extract file=acts/src/scheduler/process/task/branch.rs in="impl ActTask for Branch" item="fn init" name=Branch::init props=C04,C01,C02,C08
+//@@ opt traitpost
+//@@ proof at=start
+        proof { lemma_flag_keys(); }
+//@@ spec
+        ensures
+            //# D1-branches-emit-no-message
+            flag_is(final(h).tasks[old(h).cur], consts::TASK_EMIT_DISABLED@, false),
+            //# D1-needs-branch-waits
+            self.needs@.len() > 0 ==> ret is Ok && final(h).st(old(h).cur) is Pending,
+            //# D1-false-condition-skips
+            self.needs@.len() == 0 && self.r#if is Some && ret is Ok && eval_result::<bool>(self.r#if->Some_0@, emit_off(*old(h))) == Ok::<bool, ActError>(false)
+                ==> final(h).st(old(h).cur) is Skipped,
+            //# D1-true-condition-stays-ready
+            self.needs@.len() == 0 && self.r#if is Some && ret is Ok && eval_result::<bool>(self.r#if->Some_0@, emit_off(*old(h))) == Ok::<bool, ActError>(true)
+                ==> final(h).st(old(h).cur) is Ready,
+            //# D1-no-condition-no-else-skips
+            self.needs@.len() == 0 && self.r#if is None && !self.r#else ==> ret is Ok && final(h).st(old(h).cur) is Skipped,
+            //# D1-else-branch-waits-unless-alone
+            self.needs@.len() == 0 && self.r#if is None && self.r#else ==> ret is Ok && (final(h).st(old(h).cur) is Pending || final(h).st(old(h).cur) is Ready),
+//@@ end
 //@@ extract file=acts/src/scheduler/process/task/branch.rs in="impl ActTask for Branch" item="fn run" name=Branch::run props=C02,C04
 //@@ opt traitpost
 //@@ end
@@ -628,14 +683,31 @@ impl ActTask for Branch {
 
 impl ActTask for Step {
     open spec fn fits(&self, h: Heap) -> bool { h.tasks[h.cur].node.content == NodeContent::Step(*self) }
+    open spec fn init_pre(&self, h: Heap) -> bool { h.st(h.cur) is Ready }
     open spec fn run_pre(&self, h: Heap) -> bool { h.st(h.cur) is Running }
     open spec fn init_cur(&self, a: Heap, b: Heap) -> bool { b.cur == a.cur }
     // R21: the trait's default `error` (scheduler/mod.rs), instantiated here because Step does not override it
 //@@ extract file=acts/src/scheduler/mod.rs in="trait ActTask" item="fn error" name=Step::error(default) props=C02,C06
 //@@ opt traitpost attr="#[verifier::exec_allows_no_decreases_clause]"
 //@@ end
-    #[verifier::external_body]
-    fn init(&self, ctx: &Context, Tracked(h): Tracked<&mut Heap>) -> (ret: Result<()>) { unimplemented!() }
+//@@ extract file=acts/src/scheduler/process/task/step.rs in="impl ActTask for Step" item="fn init" name=Step::init props=C04,C02,C06,C19
+//@@ opt traitpost
+//@@ spec
+        ensures
+            //# D3-false-condition-skips-and-schedules-nothing
+            self.r#if is Some && ret is Ok && eval_result::<bool>(self.r#if->Some_0@, *old(h)) == Ok::<bool, ActError>(false)
+                ==> final(h).st(old(h).cur) is Skipped && final(h).queue == old(h).queue && final(h).hooks == old(h).hooks,
+            //# D3-init-schedules-nothing
+            final(h).queue == old(h).queue && final(h).tasks.dom() == old(h).tasks.dom(),
+//@@ loop 1
+        invariant
+            //# registering-hooks
+            h.cur == old(h).cur && task.id@ == h.cur && h.tasks.dom() == old(h).tasks.dom() && h.queue == old(h).queue,
+//@@ loop 2
+        invariant
+            //# registering-hooks
+            h.cur == old(h).cur && task.id@ == h.cur && h.tasks.dom() == old(h).tasks.dom() && h.queue == old(h).queue,
+//@@ end
 //@@ extract file=acts/src/scheduler/process/task/step.rs in="impl ActTask for Step" item="fn run" name=Step::run props=C02,C04
 //@@ opt traitpost
 //@@ end
@@ -645,6 +717,13 @@ impl ActTask for Step {
         invariant
             //# count-bound
             count <= __i1, tasks_ok(*h, __v1@),
+            //# H1-counted-children-are-closed
+            count == __i1 ==> forall|j: int| 0 <= j < __i1 ==> h.has((#[trigger] __v1@[j]).id@) && closed_or_revived(h.tasks[__v1@[j].id@]),
+//@@ proof before=set_state#2
+                proof {
+                    //# H1-completes-only-over-closed-children [C03]
+                    assert(forall|j: int| 0 <= j < tasks@.len() ==> closed_or_revived(h.tasks[(#[trigger] tasks@[j]).id@]));
+                }
 //@@ end
 //@@ extract file=acts/src/scheduler/process/task/step.rs in="impl ActTask for Step" item="fn review" name=Step::review props=C02,C03,C04,C01
 //@@ opt traitpost
@@ -652,11 +731,19 @@ impl ActTask for Step {
         invariant
             //# count-bound
             count <= __i1, tasks_ok(*h, __v1@),
+            //# H1-counted-children-are-closed
+            count == __i1 ==> forall|j: int| 0 <= j < __i1 ==> h.has((#[trigger] __v1@[j]).id@) && closed_or_revived(h.tasks[__v1@[j].id@]),
+//@@ proof before=set_state#2
+                proof {
+                    //# H1-completes-only-over-closed-children [C03]
+                    assert(forall|j: int| 0 <= j < tasks@.len() ==> closed_or_revived(h.tasks[(#[trigger] tasks@[j]).id@]));
+                }
 //@@ end
 }
 
 impl ActTask for Act {
     open spec fn fits(&self, h: Heap) -> bool { h.tasks[h.cur].node.content == NodeContent::Act(*self) }
+    open spec fn init_pre(&self, h: Heap) -> bool { h.st(h.cur) is Ready }
     open spec fn run_pre(&self, h: Heap) -> bool { h.st(h.cur) is Running }
     open spec fn init_cur(&self, a: Heap, b: Heap) -> bool { b.cur == a.cur }
     // R21: the trait's default `error` (scheduler/mod.rs), instantiated here because Act does not override it
@@ -673,6 +760,13 @@ impl ActTask for Act {
         invariant
             //# count-bound
             count <= __i1, tasks_ok(*h, __v1@),
+            //# H1-counted-children-are-closed
+            count == __i1 ==> forall|j: int| 0 <= j < __i1 ==> h.has((#[trigger] __v1@[j]).id@) && closed_or_revived(h.tasks[__v1@[j].id@]),
+//@@ proof before=set_state#2
+                proof {
+                    //# H1-completes-only-over-closed-children [C03]
+                    assert(forall|j: int| 0 <= j < tasks@.len() ==> closed_or_revived(h.tasks[(#[trigger] tasks@[j]).id@]));
+                }
 //@@ end
 //@@ extract file=acts/src/scheduler/process/task/act.rs in="impl ActTask for Act" item="fn review" name=Act::review props=C02,C03,C04
 //@@ opt traitpost
@@ -688,6 +782,7 @@ impl ActTask for Act {
 // the dispatcher: task.rs `impl ActTask for Arc<Task>`
 impl ActTask for Arc<Task> {
     open spec fn fits(&self, h: Heap) -> bool { wf_task(h, **self) }
+    open spec fn init_pre(&self, h: Heap) -> bool { true }
     open spec fn run_pre(&self, h: Heap) -> bool { h.cur == self.id@ }
     open spec fn init_cur(&self, a: Heap, b: Heap) -> bool { b.cur == self.id@ }
 //@@ extract file=acts/src/scheduler/process/task.rs in="impl ActTask for Arc<Task>" item="fn init" name=Arc<Task>::init props=C02,C03,C08
